@@ -5,17 +5,12 @@ from __future__ import annotations
 import ast
 
 from .common import *  # noqa: F401,F403
-from .common import SVC, MOD, TASKVARS, AnalysisError, Ctx, Facts, Registry, U, Unit, call_name, own_nodes, parent, q, where
+from .common import SVC, MOD, TASKVARS, AnalysisError, Ctx, Facts, Registry, U, Unit, call_name, eq_atom, own_nodes, parent, q, where
 from .c01 import handler_invocations
 
 ob = Registry()
 
 CTX_VARS = ('_current_event_context', 'inside_handler_context', '_current_handler_id_context')
-
-
-def eq_atom(a: str, b: str) -> str:
-    l, r = sorted([a, b])
-    return f'{l} == {r}'
 
 
 def ctx_sets(c: Ctx, u: Unit) -> list[tuple[ast.Assign, str, str]]:
